@@ -46,26 +46,27 @@ static void crash_handler(int sig, siginfo_t *si, void *uc) {
 // ---------------------------------------------------------------------------------------------- the world
 struct LcSim;
 static LcSim *g_self;
-static jmp_buf g_err_jmp; static int g_err_code; static char g_err_msg[256];
-static void MIR_NO_RETURN err_func(MIR_error_type_t t, const char *format, ...) {
-  g_err_code = (int) t; va_list ap; va_start(ap, format); vsnprintf(g_err_msg, sizeof g_err_msg, format, ap); va_end(ap);
-  longjmp(g_err_jmp, 1);
-}
+static void MIR_NO_RETURN err_func(MIR_error_type_t t, const char *format, ...);
+struct Layout { uint64_t a, a2, k, k2, kspan; };
+static const Layout LAYOUT0 = {0x230000000000ULL, 0x231000000000ULL, 0x240000000000ULL, 0x250000000000ULL, 1ull << 40};
+static void (*g_yield_hook)(int kind) = nullptr;  // tasksim: scheduling point at external calls
 
 struct LcSim : Harness {
-  SimAlloc A, A2; SimCode K, K2;
+  SimAlloc A, A2; SimCode K, K2; Layout L = LAYOUT0; bool own_handlers = true;
+  jmp_buf err_jmp; int err_code = 0; char err_msg[256];
   const char *name() override { return "lcsim"; }
   int hang_seconds() override { return 30; }
   void worker_init() override {
     if (A.base) return;
-    if (!A.map((void *) 0x230000000000ULL, 1ull << 30) || !A2.map((void *) 0x231000000000ULL, 1ull << 30)) { fprintf(stderr, "lcsim: cannot map arenas\n"); _exit(3); }
-    K.init((void *) 0x240000000000ULL, 1ull << 40); K2.init((void *) 0x250000000000ULL, 1ull << 40);
-    if (!g_sym.load("libmir.so")) { fprintf(stderr, "lcsim: cannot read libmir.so symbols\n"); _exit(3); }
+    if (!A.map((void *) L.a, 1ull << 30) || !A2.map((void *) L.a2, 1ull << 30)) { fprintf(stderr, "lcsim: cannot map arenas\n"); _exit(3); }
+    K.init((void *) L.k, L.kspan); K2.init((void *) L.k2, L.kspan);
+    if (g_sym.syms.empty() && !g_sym.load("libmir.so")) { fprintf(stderr, "lcsim: cannot read libmir.so symbols\n"); _exit(3); }
+    wrap::hooks.malloc_ = w_malloc; wrap::hooks.calloc_ = w_calloc; wrap::hooks.realloc_ = w_realloc; wrap::hooks.free_ = w_free; wrap::hooks.other = w_other;
+    wrap::hooks.clock_ticks = &clock_ticks; wrap::hooks.on_exit = w_exit;
+    if (!own_handlers) return;
     static uint8_t altstack[1 << 16]; stack_t ss; ss.ss_sp = altstack; ss.ss_size = sizeof altstack; ss.ss_flags = 0; sigaltstack(&ss, nullptr);
     struct sigaction sa; memset(&sa, 0, sizeof sa); sa.sa_sigaction = crash_handler; sa.sa_flags = SA_SIGINFO | SA_ONSTACK | SA_NODEFER;
     for (int s : {SIGSEGV, SIGBUS, SIGILL, SIGFPE, SIGABRT}) sigaction(s, &sa, nullptr);
-    wrap::hooks.malloc_ = w_malloc; wrap::hooks.calloc_ = w_calloc; wrap::hooks.realloc_ = w_realloc; wrap::hooks.free_ = w_free; wrap::hooks.other = w_other;
-    wrap::hooks.clock_ticks = &clock_ticks; wrap::hooks.on_exit = w_exit;
   }
   static void w_exit(int code, void *ra) {
     std::string fn = g_sym.name(ra);
@@ -95,6 +96,7 @@ struct LcSim : Harness {
   std::vector<prog::ExtCall> ext_log; std::map<int64_t, void *> reenter_addr; int ext_depth = 0;
   static int64_t ext_c(int64_t tag, int64_t v) {
     LcSim *s = g_self; s->ext_log.push_back({tag, v}); s->clock_ticks++;
+    if (g_yield_hook) { g_yield_hook(9); s = g_self; }
     auto it = s->reenter_addr.find(tag);
     if (it != s->reenter_addr.end() && it->second && s->ext_depth < 3) {
       s->ext_depth++; s->C->count("ext_reentered_mir");
@@ -205,7 +207,7 @@ struct LcSim : Harness {
     setup_model();
     ctx_open(kn);
     bool finished = false;
-    if (setjmp(g_err_jmp) == 0) {
+    if (setjmp(err_jmp) == 0) {
       for (auto &op : plan.at("ops").a) {
         if (out.violation) break;
         if (op.k != Json::Arr || op.size() == 0 || !ctx) continue;
@@ -234,12 +236,12 @@ struct LcSim : Harness {
   int expect_error = -1; std::string expect_error_why;  // set by the history model before an op that must fail (C13)
   void on_error(Outcome &out) {
     if (expect_error >= 0) {
-      if (g_err_code != expect_error) out.fail("link_wrong_error", std::to_string(expect_error), fmt("expected error %d (%s) but the error call-back received %d: %s (during %s)", expect_error, expect_error_why.c_str(), g_err_code, g_err_msg, g_phase));
+      if (err_code != expect_error) out.fail("link_wrong_error", std::to_string(expect_error), fmt("expected error %d (%s) but the error call-back received %d: %s (during %s)", expect_error, expect_error_why.c_str(), err_code, err_msg, g_phase));
       else C->count("expected_error_reported");
       expect_error = -1; return;
     }
     if (expect_error == -2) { expect_error = -1; C->count("dont_care_error"); return; }
-    out.fail("unexpected_error", fmt("err%d", g_err_code), fmt("error call-back (%d: %s) during %s of an error-free history", g_err_code, g_err_msg, g_phase));
+    out.fail("unexpected_error", fmt("err%d", err_code), fmt("error call-back (%d: %s) during %s of an error-free history", err_code, err_msg, g_phase));
   }
 
   void ledger_check(Outcome &out) {
@@ -717,4 +719,10 @@ struct LcSim : Harness {
   }
 };
 
+static void MIR_NO_RETURN err_func(MIR_error_type_t t, const char *format, ...) {
+  LcSim *s = g_self; s->err_code = (int) t; va_list ap; va_start(ap, format); vsnprintf(s->err_msg, sizeof s->err_msg, format, ap); va_end(ap);
+  longjmp(s->err_jmp, 1);
+}
+#ifndef LCSIM_NO_MAIN
 int main(int argc, char **argv) { LcSim h; g_self = &h; return runner_main(argc, argv, h); }
+#endif
